@@ -612,3 +612,72 @@ func runC10Meta(c bson.D, x *Ctx) error {
 var propC10Meta = Register(&Prop{ID: "C10", Sub: "meta", Gen: genC10Meta, Run: runC10Meta})
 
 func TestProp_C10_meta(t *testing.T) { propC10Meta.Check(t) }
+
+// ---------------------------------------------------------------- $jsonSchema agreement
+//
+// (document, schema) pairs: the schema is generated over the document's key
+// alphabet with every supported keyword; {$jsonSchema: schema} - alone, next
+// to a field condition, and under $nor - must give the truth value of the
+// independent reference evaluator ref.SchemaValid.
+
+func genC10Schema(t *rapid.T) bson.D {
+	cfg := gen.Core
+	doc := cfg.Doc(2, 4).Draw(t, "doc")
+	if rapid.IntRange(0, 2).Draw(t, "withid") == 0 {
+		doc = append(bson.D{{Key: "_id", Value: int32(1)}}, doc...)
+	}
+	schema := cfg.Schema(2).Draw(t, "schema")
+	// most schemas constrain the document through properties
+	if rapid.IntRange(0, 2).Draw(t, "wrap") > 0 {
+		k := rapid.SampledFrom([]string{"a", "b", "c"}).Draw(t, "wk")
+		schema = bson.D{{Key: "properties", Value: bson.D{{Key: k, Value: schema}}}}
+		if rapid.Bool().Draw(t, "wreq") {
+			schema = append(schema, bson.E{Key: "required", Value: bson.A{k}})
+		}
+	}
+	return bson.D{{Key: "doc", Value: doc}, {Key: "schema", Value: schema}}
+}
+
+func runC10Schema(c bson.D, x *Ctx) error {
+	doc := asD(getD(c, "doc"))
+	schema := asD(getD(c, "schema"))
+	want, rerr := ref.SchemaValid(schema, doc)
+	if rerr != nil {
+		x.Class("outside-reference")
+		return nil
+	}
+	filter := bson.D{{Key: "$jsonSchema", Value: schema}}
+	got := lmatch(doc, filter)
+	if got.panic {
+		return got.err
+	}
+	if got.err != nil {
+		return fmt.Errorf("mongokit.Match rejects the well-formed schema %s: %v", show(schema), got.err)
+	}
+	if got.ok != want {
+		// known finding: array-form dependencies are applied even when the
+		// dependent property is absent; told apart by re-evaluating the
+		// reference with exactly that deviation
+		ref.SchemaDepsUnconditional = true
+		alt, _ := ref.SchemaValid(schema, doc)
+		ref.SchemaDepsUnconditional = false
+		if alt == got.ok && x.Known("C10-jsonschema-dependencies-array-unconditional") {
+			return nil
+		}
+		return fmt.Errorf("{$jsonSchema: %s} on %s: mongokit.Match = %v, reference evaluation says %v", show(schema), show(doc), got.ok, want)
+	}
+	// negation and conjunction with a field condition
+	nor := lmatch(doc, bson.D{{Key: "$nor", Value: bson.A{filter}}})
+	if nor.err != nil || nor.ok == want {
+		return fmt.Errorf("{$nor: [{$jsonSchema: ...}]} = %v (%v) although the schema evaluates to %v", nor.ok, nor.err, want)
+	}
+	x.Class(fmt.Sprintf("valid=%v", want))
+	if len(schema) >= 2 || len(doc) >= 2 {
+		x.NonTrivial()
+	}
+	return nil
+}
+
+var propC10Schema = Register(&Prop{ID: "C10", Sub: "schema", Gen: genC10Schema, Run: runC10Schema})
+
+func TestProp_C10_schema(t *testing.T) { propC10Schema.Check(t) }
